@@ -55,12 +55,21 @@ def gen_cas(rng, h, nchunks, chunk_pool=None, dup_rate=0.0):
         ln = rng.choice([1, 100, 8192, 65536, 131072, rng.randrange(1, 131073)])
         chunks.append((ch, ln, pos, rng.choice([0, 0, rng.getrandbits(64)])))
         pos += ln
+    if rng.random() < 0.06:
+        # byte totals close to u32::MAX: the shard-wide sums must be carried in 64 bits
+        big = rng.choice([0xFFFFFFFF, 0xFFFFFF00, 0x90000000])
+        return {"hash": h, "flags": rng.choice([0, 0, 0, 5]), "nbytes": big, "ndisk": rng.choice([big, big - 7, 0x80000001]), "chunks": chunks}
     return {"hash": h, "flags": rng.choice([0, 0, 0, 5]), "nbytes": pos & 0xFFFFFFFF, "ndisk": rng.randrange(0, (pos & 0xFFFFFFFF) + 1), "chunks": chunks}
 
 
 def gen_file(rng, h, nsegs, cas_list, flags=None):
     segs = []
+    # one file in twelve carries segments whose byte counts add up past 2^32 (the record only holds metadata)
+    huge = nsegs >= 2 and rng.random() < 0.08
     for _ in range(nsegs):
+        if huge:
+            segs.append((mk_hash(rng), 0, rng.choice([0xFFFFFFFF, 0x80000000, 0xC0000001, 0xFFFF0000]), 0, rng.randrange(1, 50)))
+            continue
         if cas_list and rng.random() < 0.8:
             c = rng.choice(cas_list)
             n = len(c["chunks"])
